@@ -13,6 +13,7 @@ import ClvmProofs.Lemmas.Interp.Repr
 import ClvmProofs.Lemmas.Interp.ReprMachine
 import ClvmProofs.Lemmas.Interp.ReprChia
 import ClvmProofs.Lemmas.Interp.ReprHistory
+import ClvmProofs.Lemmas.Interp.ReprMono
 
 namespace Clvm.Props.C03
 open Clvm Clvm.Interp
@@ -117,6 +118,21 @@ theorem run_history_no_limit (cfg : Cfg) (F : Flags) (fuel : Nat) (c0 c0' : Ctr)
     (hl : ∀ e, r = .error e → e.isLimit = false) (hl' : ∀ e, r' = .error e → e.isLimit = false) :
     (∃ k v c c', r = .ok (k, v, c) ∧ r' = .ok (k, v, c')) ∨ (∃ e, r = .error e ∧ r' = .error e) :=
   (chia_run_history cfg F fuel c0 c0' program env maxCost r r' hr hr').no_limit hl hl'
+
+/-- **Heap history, monotone in the headroom.** ChiaDialect with every operator and every flag
+set: a run that succeeds from the counters `c0` succeeds — same fuel, same cost, same value — from
+every `c0'` with at least as much headroom in all three counters (not more atoms, not more pairs, at
+least the same heap slack `heapLimit - heap`), and the final counters are again in that relation
+(the allocation deltas of every operator do not depend on the starting counters:
+`coreOps_mono`, `opUnknown_mono`, `cryptoExtra_mono`). -/
+theorem run_history_monotone (cfg : Cfg) (F : Flags) (fuel : Nat) (c0 c0' : Ctr) (program env : Val)
+    (maxCost : Nat) (k : Nat) (v : Val) (c1 : Ctr)
+    (hatoms : c0'.atoms ≤ c0.atoms) (hpairs : c0'.pairs ≤ c0.pairs)
+    (hheap : c0'.heap + c0.heapLimit ≤ c0'.heapLimit + c0.heap)
+    (h : runProgram cfg (chiaDialect cfg cryptoExtra F) fuel c0 program env maxCost = some (.ok (k, v, c1))) :
+    ∃ c1', runProgram cfg (chiaDialect cfg cryptoExtra F) fuel c0' program env maxCost = some (.ok (k, v, c1')) ∧
+      c1'.atoms ≤ c1.atoms ∧ c1'.pairs ≤ c1.pairs ∧ c1'.heap + c0.heapLimit ≤ c0'.heapLimit + c1.heap :=
+  chia_run_history_monotone cfg F fuel c0 c0' program env maxCost k v c1 hatoms hpairs hheap h
 
 /-- the full statement (all programs, `heapToo = false`), kept visible -/
 def Statement : Prop := EvalRetagStatement
